@@ -54,3 +54,49 @@ def run(prog, tier, repo):
     consumers = [b for b in services if any(t.k == 'adt' and t.id == D.id for t in b.locals) and b.kind != 'closure']
     res.analysed['consumers'] = sorted(b.name for b in consumers)
     return [res]
+
+
+# ---------------------------------------------------------------------------------------------------------------------
+# NAV-VIA-SSA (C15): a navigation query that resolves local names through the checker's SSA result (it calls
+# find_all_definition_and_uses) does so for *every* local-name hit of the cursor search. An arm that answers a TypedName hit
+# without the lookup substitutes its own notion of "binding occurrence" for the checker's (an identifier in a later
+# alternative of an or-pattern is a use, not a binding) and go-to-definition then disagrees with find-references and rename.
+
+def run_nav_via_ssa(prog, tier, repo):
+    from ..tables import enum_switches
+    from ..cfg import cfg_of
+    from ..facts import callee
+    res = RuleResult('NAV-VIA-SSA', 'C15: in every service query that resolves local names through the SSA result, each path that '
+                     'handles a local-name hit of the cursor search passes through the SSA definition/uses lookup')
+    adt = [a for a in prog.adts.values() if a.name.endswith('location_cover::LocationCoverSearchResult')]
+    if len(adt) != 1:
+        res.cannot_decide('location_cover::LocationCoverSearchResult')
+        return [res]
+    adt = adt[0]
+    tn = [i for i, v in enumerate(adt.variants) if v.name == 'TypedName']
+    if not tn:
+        res.cannot_decide('the local-name variant of the cursor search result')
+        return [res]
+    tn = tn[0]
+    n = 0
+    for b in prog.bodies.values():
+        if b.crate != 'samlang_services' or b.kind == 'closure':
+            continue
+        lookups = [bi for bi, bl in enumerate(b.blocks) if not bl.cleanup and bl.term[0] == 'call'
+                   and (callee(bl.term)[1] or '').endswith('find_all_definition_and_uses')]
+        if not lookups:
+            continue
+        cfg = cfg_of(b)
+        for tb in enum_switches(prog, b, adt.id):
+            if tn not in tb.arms:
+                continue
+            n += 1
+            key = f'nav:{b.name}'
+            if cfg.nodes_postdominate(lookups, tb.arms[tn]):
+                res.ok(key, b.loc(b.blocks[tb.bb].term[4]), 'every path of the local-name arm reaches find_all_definition_and_uses')
+            else:
+                res.violation(key, b.loc(b.blocks[tb.bb].term[4]), f'{b.name} answers a local-name hit on some path without consulting '
+                              f'find_all_definition_and_uses: that path decides by itself what the name resolves to, which differs '
+                              f'from the checker\'s scoping for e.g. identifiers in later alternatives of an or-pattern')
+    res.floor('navigation queries with a local-name arm', n, 3)
+    return [res]
